@@ -16,7 +16,10 @@ RULE = ('histories on ONE PyKdebugParser object: 2..8 steps, each = (filter sett
         'on a FRESH parser if pred(t)] (pred: tid equality, class/subclass membership of the trace\'s first event id, '
         'process name or pid shown for the emitting thread at emission time), same order, identical text; callstacks '
         '== callstacks of a fresh parser with the same settings; kevents == C12 predicate; after every request the '
-        'four filter attributes still hold what the history last set. Non-trivial: a class or subclass filter is active '
+        'four filter attributes still hold what the history last set; after the history an unfiltered request on every dump '
+        'equals the baseline, and a canonical dump decoded at process start reads the same from a fresh parser before and '
+        'after every history (state kept outside the objects); callstack_history: 2..4 callstack requests over one or two '
+        'dumps on one object == fresh parser each time. Non-trivial: a class or subclass filter is active '
         'and the same request occurs at least twice in the history; distinct by history digest.')
 ASSUMPTIONS = ['subclass filters are BSD subclasses only (statement); callstack requests are compared for repeatability, '
                'not against the unfiltered run (dropping image announcements legitimately changes attribution)',
